@@ -279,9 +279,11 @@ var prop = harn.Register(&harn.Prop[Case]{Name: "TestConcurrentSessions", Run: r
 
 var opts = scen.GenOpts{
 	World: world.Opts{MaxFlows: 3, MaxNodes: 4, Languages: []string{"fra", "spa"}, QueryGroups: true, WebhookRefs: true, NoRandom: true,
-		Templates: []string{"@contact.groups", "@(contact.groups[0].name)", "@(json(contact.groups))", "@(foreach(contact.groups, (g) => g.name))", "@contact.fields", "@(json(globals))", "@globals", "@(json(contact.fields))"}, NoGeneratedIDs: true, LocationHeavy: true,
+		Templates: []string{"@contact.groups", "@(contact.groups[0].name)", "@(json(contact.groups))", "@(foreach(contact.groups, (g) => g.name))", "@contact.fields", "@(json(globals))", "@globals", "@(json(contact.fields))",
+			"@webhook", "@webhook.json", "@webhook.json.ok", "@(if(webhook.json.ok, 1, 2))", "@(webhook.json.ok = true)", "@trigger.params.flag"}, NoGeneratedIDs: true, LocationHeavy: true,
+		WebhookCmds: []string{"true", "false", "true", "json", "json", "null"},
 		// no rand()/now()-dependent or clock-dependent templates: outputs must be comparable modulo UUIDs and timestamps
-		Actions: []string{"send_msg", "set_run_result", "set_contact_name", "set_contact_field", "set_contact_language", "add_contact_groups", "remove_contact_groups", "enter_flow", "call_webhook", "add_contact_urn", "set_contact_status"}}, // no open_ticket: it saves the generated ticket UUID as a result value, which later routers read (found by the thorough tier: has_number on that value)
+		Actions: []string{"send_msg", "set_run_result", "set_contact_name", "set_contact_field", "set_contact_language", "add_contact_groups", "remove_contact_groups", "enter_flow", "call_webhook", "add_contact_urn", "set_contact_status", "send_broadcast", "start_session"}}, // no open_ticket: it saves the generated ticket UUID as a result value, which later routers read (found by the thorough tier: has_number on that value)
 	StaleGroups: true,
 	Redaction:   true,
 	MaxSteps:    3,
